@@ -183,3 +183,45 @@ pub fn clip(s: &str, n: usize) -> String {
         format!("{}…(+{} bytes)", &s[..e], s.len() - e)
     }
 }
+
+/// a scratch directory private to the calling worker thread (created empty on first use
+/// per call site; callers clean up what they create)
+pub fn thread_dir(prop: &str) -> PathBuf {
+    let t = std::thread::current();
+    let name = t.name().unwrap_or("main").to_string();
+    let d = crate::core::run::verif_dir().join(".work").join(prop).join(format!("t-{}-{}", std::process::id(), name));
+    let _ = std::fs::create_dir_all(&d);
+    d
+}
+
+pub use sv_parser_parser::verif::{Policy, Stats};
+
+/// run `f` with this thread's memo table re-created under `policy` (and the diagnostic
+/// sound-key mode if asked), then restore the shipped configuration
+pub fn with_policy<T>(policy: Policy, sound_key: bool, f: impl FnOnce() -> T) -> (T, Stats) {
+    use sv_parser_parser::verif as v;
+    v::set_packrat_policy(policy);
+    v::set_sound_key(sound_key);
+    v::reset_stats();
+    let r = guarded(f);
+    let st = v::packrat_stats();
+    v::set_sound_key(false);
+    v::set_packrat_policy(Policy::Fifo(Some(1024)));
+    v::reset_stats();
+    match r {
+        Ok(r) => (r, st),
+        Err(p) => panic!("{}", p),
+    }
+}
+
+pub const SIG_MEMO: &str = "result-depends-on-memo-eviction";
+
+/// Is the nows-skeleton `want` obtained for `src` once nothing is ever evicted from the
+/// memo table? (attribution of a failure to the known memo defect, see DESIGN.md 7/P10)
+pub fn unbounded_memo_gives(src: &str, lib: bool, want: &str) -> bool {
+    let (r, _) = with_policy(Policy::Fifo(None), false, || parse_simple(src, lib, false));
+    match r {
+        Ok(Ok((t, _))) => crate::util::tree::skeleton_nows(&t) == want,
+        _ => false,
+    }
+}
